@@ -96,6 +96,37 @@ def relax_loop_isolation(lines, ranges):
     return out, n
 
 
+def new_functions(lines, regions):
+    """{name: line} of functions whose whole header is absent from the pinned extraction: new functions; the weaver
+    has no annotation for them, so they carry no contract"""
+    out = {}
+    for ln, l in enumerate(lines, 1):
+        m = vrun.FN_HDR.match(l)
+        if m:
+            tags = gen.locate(regions, ln)[2]
+            if 'new' in tags and 'code' not in tags and 'annot' not in tags and 'prelude' not in tags:
+                out[m.group(1)] = ln
+    return out
+
+
+def needs_contract(lines, line, newfns):
+    """name of a new (contract-less) function that the function enclosing `line` is, or calls; else None"""
+    if not newfns:
+        return None
+    rg = fn_range(lines, line)
+    if not rg:
+        return None
+    fl, end = rg
+    for n, ln in newfns.items():
+        if fl <= ln <= end and ln == fl:
+            return n
+    body = '\n'.join(lines[fl - 1:end])
+    for n in newfns:
+        if re.search(r'(?<![A-Za-z_0-9])%s\s*(?:::<[^>]*>)?\s*\(' % re.escape(n), body):
+            return n
+    return None
+
+
 def fn_changed(lines, regions, line):
     """does the function enclosing `line` contain tokens that differ from the pinned extraction?"""
     rg = fn_range(lines, line)
@@ -184,6 +215,26 @@ class Outcome:
         self.cmds = []
         self.canaries = (0, 0)
         self.notes = []
+
+
+ALLOC_TOKENS = re.compile(r'\b(vec!|format!|String|Rc|Arc|HashMap|HashSet|BTreeMap|BTreeSet|VecDeque|LinkedList|BinaryHeap|'
+                          r'to_string|to_owned|collect|into_boxed_slice|into_vec|GlobalAlloc|Layout|Cow)\b'
+                          r'|\b(?:Box|Vec)\s*::\s*[a-z_]+|\balloc\s*::\s*alloc\b')
+
+
+def scan_alloc(lines, regions):
+    """(line, token) of code tokens (not annotations, not prelude) that name a std allocating construct which rule X16
+    leaves in place"""
+    out = []
+    for i, l in enumerate(lines, 1):
+        m = ALLOC_TOKENS.search(l)
+        if not m or l.strip().startswith('//') or l.strip().startswith('use '):
+            continue
+        kind, name, tags, local = gen.locate(regions, i)
+        if kind != 'part' or not (('code' in tags) or ('new' in tags)):
+            continue
+        out.append((i, m.group(0)))
+    return out
 
 
 def scan_trusted(text, regions):
@@ -315,6 +366,7 @@ def decide_build(pid, spec, b, tier, oc, seed):
     # ---- failures
     kinds = spec.get('kinds')
     known = load_known()
+    newfns = new_functions(lines, regions) if changed else {}
     for e in a['errors']:
         module = mod_of_part(e['part']) if e['part'] in units.PARTS else (os.path.basename(str(e['part']))[:-4] if e['part'] and 'prelude' in str(e['part']) else None)
         ty, fn = fn_qual(lines, e['site_line'])
@@ -324,6 +376,14 @@ def decide_build(pid, spec, b, tier, oc, seed):
         k = e['kind']
         if k == 'rlimit':
             oc.undecided.append('%s: resource limit in %s::%s' % (bname, module, e['qual']))
+            continue
+        nc = needs_contract(lines, e['site_line'], newfns)
+        if nc:
+            # modular verification knows nothing about a function that has no contract: an obligation that fails in
+            # such a function, or in a caller of it, says "needs contract", not "the code is wrong" -- undecided; the
+            # replayer cross-check below still turns it into a VIOLATION when it finds a concrete failing input
+            oc.undecided.append('%s: proof-script mismatch: %s::%s is or calls the new function `%s`, which has no contract '
+                                '(%s obligation at `%s` undischarged)' % (bname, module, e['qual'], nc, k, e['site_text'][:60]))
             continue
         hint = k in ('assertion', 'recommends') and 'code' not in e['site_tags']
         extra_ok = False
@@ -335,6 +395,8 @@ def decide_build(pid, spec, b, tier, oc, seed):
         if kinds and k not in kinds and not hint and not extra_ok:
             # a failure kind that belongs to another property (e.g. arithmetic -> C14)
             foreign = 'kind %s' % k
+        elif spec.get('clause_only') and not hint and not re.search(spec['clause_only'], e['clause_text'] or ''):
+            foreign = 'kind %s, clause not of this property' % k
         elif spec.get('mem_only') and not hint and not ((k == 'precondition' and MEM_CLAUSE.search(e['clause_text'])) or
                                                         (k in ('postcondition', 'invariant') and INV_CLAUSE.search(e['clause_text']))):
             foreign = 'not a memory obligation'
@@ -368,7 +430,16 @@ def decide_build(pid, spec, b, tier, oc, seed):
         else:
             oc.undecided.append('%s: proof-script mismatch in %s::%s (%s at `%s`)' % (bname, module, e['qual'], k, e['site_text'][:80]))
             oc.notes.append(json.dumps(rec))
-    # functions that failed without a mapped error (e.g. error in callee contract region)
+    # ---- C17: allocating constructs that rule X16 does not redirect must not occur outside permitted functions
+    if spec.get('alloc_scan'):
+        for (ln, tok) in scan_alloc(lines, regions):
+            rg = fn_range(lines, ln)
+            hdr = '\n'.join(lines[rg[0] - 1:ln]) if rg else ''
+            if 'may_alloc()' in hdr.split('{')[0]:
+                continue
+            ty, fn = fn_qual(lines, ln)
+            oc.undecided.append('%s: proof-script mismatch: allocating construct `%s` that rule X16 does not model, in %s%s (line `%s`)'
+                                % (bname, tok, (ty + '::') if ty else '', fn or '?', lines[ln - 1].strip()[:80]))
     # ---- trusted scan
     for t in scan_trusted(text, regions):
         oc.trusted.append('%s:%d %s' % t)
@@ -378,11 +449,22 @@ def decide_build(pid, spec, b, tier, oc, seed):
     # ---- canaries (vacuity guard ii): every selected exec function must FAIL with assert(false) at its entry
     if not oc.violations and not oc.undecided and not os.environ.get('VERIF_NO_CANARY'):
         ctext, expected = insert_canaries(text, regions, lines, sel)
+        perm_line = None
+        if spec.get('perm_canary') and expected:
+            # the allocation permission must not be derivable: a function WITHOUT `requires may_alloc()` that calls a
+            # gated allocator has to fail exactly that precondition
+            cl = ctext.split('\n')
+            for i, l in enumerate(cl):
+                if '@PERM-CANARY@' in l:
+                    cl[i] = 'pub fn perm_canary(s: &[u8]) -> alloc::boxed::Box<[u8]> { alloc_box_from(s) } /*canary-perm*/'
+                    perm_line = i + 1
+                    break
+            ctext = '\n'.join(cl)
         if expected:
             cpath = os.path.join(WORK, '%s_%s_canary.rs' % (pid, bname))
             open(cpath, 'w').write(ctext)
             cr = vrun.run_verus(cpath, modules=b.get('modules'), threads=int(os.environ.get('VERIF_THREADS', '4')),
-                                multiple_errors=1, extra=xtra)
+                                multiple_errors=1, extra=xtra, spinoff=False)   # every canary fails at once: no need for isolation
             ca = vrun.analyse(ctext, regions, cr)
             failed_lines = set()
             for e in ca['errors']:
@@ -413,6 +495,12 @@ def decide_build(pid, spec, b, tier, oc, seed):
                 if not ext:
                     alive.append('%s::%s%s' % (module, (ty + '::') if ty else '', fn))
             oc.canaries = (len(expected), len(expected) - len(alive))
+            if spec.get('perm_canary'):
+                if perm_line and any(e['kind'] == 'precondition' and e['site_line'] == perm_line and 'may_alloc' in (e['clause_text'] or '')
+                                     for e in ca['errors']):
+                    oc.notes.append('%s: permission canary failed its `requires may_alloc()` as required' % bname)
+                else:
+                    oc.undecided.append('%s: allocation-permission canary did not fail (permission vacuous or marker lost)' % bname)
             if ca['hard_errors'] or cr.json is None:
                 oc.undecided.append('canary unit rejected by verus: %s' % (ca['hard_errors'][0]['message'][:200] if ca['hard_errors'] else cr.raw_stderr[:200]))
             elif alive:
